@@ -5,7 +5,7 @@
    replaces it, completion needs the outer and the latest inner to have
    completed, the first error of the outer or of the latest inner ends it. *)
 From RxVerif Require Import Base.Prelude Ops.Machine Ops.Multi Ops.MultiFacts Ops.RunLemmas
-  Ops.Combinators Ops.MergeFacts Ops.SwitchSpecFacts.
+  Ops.Combinators Ops.MergeFacts Ops.SwitchSpecFacts Ops.SwitchInvFacts.
 
 Theorem C12_switch_refines_spec : forall A (mapper : A -> nat -> res unit) (ins : list (Z * inp A)),
   temitted (fst (run (x_switch_map mapper) ins)) = switch_spec mapper true 0 false 1 ins.
@@ -50,6 +50,25 @@ Theorem C12_completes_only_when_both_done : forall A (mapper : A -> nat -> res u
         \/ (ol' = true /\ has' = false /\ nth_error ins (p - pos) = Some (now, ISrc 0%nat Done))).
 Proof. exact @switch_completes_only_when_both_done. Qed.
 Print Assumptions C12_completes_only_when_both_done.
+
+(* the previous inner is unsubscribed as soon as a new inner arrives: (1) after EVERY input sequence
+   the operator/runner state is stopped or has exactly the outer (while it runs) and the latest inner
+   (while it runs) subscribed; (2) in such a state a new inner replaces the running one within the
+   same step -- previous inner unsubscribed, new one subscribed, nothing else *)
+Theorem C12_reachable_shape : forall A (mapper : A -> nat -> res unit) (ins : list (Z * inp A)),
+  sw_inv (fst (after (x_switch_map mapper) (fst (start_state (x_switch_map mapper)))
+                     (snd (start_state (x_switch_map mapper))) ins))
+         (snd (run (x_switch_map mapper) ins)).
+Proof. exact @switch_reachable_shape. Qed.
+Print Assumptions C12_reachable_shape.
+Theorem C12_new_inner_replaces_previous : forall A (mapper : A -> nat -> res unit) l0 now (x : A),
+  mapper x (S l0) = Ok tt ->
+  rstep (x_switch_map mapper) (S l0, true, negb true) (RState (switch_live true (S l0) true) [] false)
+        now (ISrc 0%nat (Next x))
+  = ((S (S l0), true, negb true), RState (switch_live true (S (S l0)) true) [] false,
+     [OUnsub (S l0); OSub (S (S l0))]).
+Proof. exact @switch_new_inner_replaces_previous. Qed.
+Print Assumptions C12_new_inner_replaces_previous.
 
 Example C12_witness :
   temitted (fst (run (x_switch_map (fun _ _ => Ok tt))
